@@ -1,5 +1,6 @@
 import Op2Proofs.SliceNesting
 import Op2Proofs.TypedReads
+import Op2Proofs.LittleEndian
 /-!
 # C12 — readers deliver exactly the addressed bytes and fail atomically at bounds
 
@@ -321,5 +322,38 @@ example : ntSpec (sliceAhead id ({ w := { data := [9, 9, 65, 0, 66, 67, 0, 9], p
 example : readNT (Slice.rd (wrappedN 1)) 10
     ({ w := { w := { data := [9, 9, 65, 0, 66, 67, 0, 9], pos := 2 }, start := 1, len := 6 }, start := 1, len := 3 } : SliceN 2) [] =
     .ok ([65], { w := { w := { data := [9, 9, 65, 0, 66, 67, 0, 9], pos := 4 }, start := 1, len := 6 }, start := 1, len := 3 }) := by rfl
+
+/-! ## size-prefixed reads over every refining reader (not only the abstract one) -/
+
+/-- `Read<SizeType>(container)` over a `SliceReader<W>` of ANY in-bounds-correct stream decides, delivers and advances
+    exactly as over the abstract reader of the slice's window: same refusals (negative size, beyond `max_size()`,
+    beyond the data), same bytes, and the slice stays well-formed over the same window -/
+theorem C12_prefixed_slice {σ : Type} {W : Wrapped σ} {ab : σ → RSpec} {G : σ → Prop}
+    (ok : WrappedOK W ab G) (s : Slice σ) (hs : sliceGood G ab s)
+    (width : Nat) (signed : Bool) (esz maxSize cap : Nat) (hw : width < W64) (hcap : cap ≤ W64) :
+    SimRes Eq (sliceAbs ab) (sliceGood G ab) (readPrefixed (Slice.rd W) width signed esz maxSize cap s)
+      (readPrefixed RSpec.rd width signed esz maxSize cap (sliceAbs ab s)) :=
+  readPrefixed_sim Eq (fun _ => rfl) (Slice.rd W) (sliceAbs ab) (sliceGood G ab)
+    (fun t k ht hk => slice_rd_sim ok t ht k hk) width signed esz maxSize cap hw hcap s hs
+
+/-- … over file slices nested to any depth -/
+theorem C12_prefixed_nested (n : Nat) (s : SliceN (n + 1)) (hs : goodN (n + 1) s)
+    (width : Nat) (signed : Bool) (esz maxSize cap : Nat) (hw : width < W64) (hcap : cap ≤ W64) :
+    SimRes Eq (absN (n + 1)) (goodN (n + 1)) (readPrefixed (Slice.rd (wrappedN n)) width signed esz maxSize cap s)
+      (readPrefixed RSpec.rd width signed esz maxSize cap (absN (n + 1) s)) :=
+  C12_prefixed_slice (wrappedN_ok n) s hs width signed esz maxSize cap hw hcap
+
+/-- … and over the `MemoryReader` model with its u64 guards: equal to the abstract reader outright -/
+theorem C12_prefixed_memory (s : MemR) (h : s.Inv)
+    (width : Nat) (signed : Bool) (esz maxSize cap : Nat) (hw : width < W64) (hcap : cap ≤ W64) :
+    SimRes Eq id RSpec.Inv (readPrefixed MemR.rd width signed esz maxSize cap s)
+      (readPrefixed RSpec.rd width signed esz maxSize cap s) := by
+  refine readPrefixed_sim Eq (fun _ => rfl) MemR.rd id RSpec.Inv ?_ width signed esz maxSize cap hw hcap s h
+  intro t k ht hk
+  rw [memrd_eq t ht k hk]
+  simp only [id]
+  cases hr : RSpec.rd t k with
+  | error e => exact rfl
+  | ok p => obtain ⟨b, t'⟩ := p; exact ⟨rfl, rfl, rd_inv t t' b k ht hr⟩
 
 end Op2.Props.C12
